@@ -4,7 +4,8 @@
 n=$1
 cd /repo || exit 2
 base=$(git merge-base main verif-$n)
-commits=$(git rev-list --reverse $base..verif-$n)
+# only commits whose patch is not yet in main ('+' lines of git cherry), oldest first
+commits=$(git cherry main verif-$n $base | grep '^+' | cut -d' ' -f2)
 for c in $commits; do
   msg=$(git log -1 --format=%s $c)
   case "$msg" in fix:*) ;; *) echo "SKIP non-fix commit $c: $msg"; continue;; esac
